@@ -2,8 +2,13 @@ SPECIFICATION Spec
 CONSTANTS
   Cfgs <- MCCfgs
   Dials <- MCDials
-  Parts = {"reply", "url", "hdr", "hist"}
+  Parts = {"reply", "url", "hdr", "hist", "body", "urlp"}
   MaxDev = 2
+  BodyLens = {0, 1, 10, 1023, 1024, 1025, 3000}
+  BodyRBufs = {0, 1, 256, 8192}
+  BodySegs = {"one", "hdr|body", "hdr+1", "crlf", "mid", "hdr|512", "100|1023", "1024", "crlf|1"}
+  BodyKinds = {"403", "200ok"}
+  BodyURLs = {"ws"}
 CONSTRAINT Emit
-INVARIANTS InvRefines InvConnOnlyIfProven InvBadReplyIsBadHandshake InvRefusedBeforeNetwork InvKeyFresh InvFailureCloses InvSuccessOpenNoDeadline InvEveryOpUnderDeadline InvFirstHopHook
+INVARIANTS InvRefines InvConnOnlyIfProven InvBadReplyIsBadHandshake InvRefusedBeforeNetwork InvRefusedNoLookup InvBodyExact InvKeyFresh InvFailureCloses InvSuccessOpenNoDeadline InvEveryOpUnderDeadline InvFirstHopHook
 CHECK_DEADLOCK FALSE
